@@ -32,3 +32,94 @@ Section Hashing.
   Theorem hash_slice_bytes_only st vs ws : concat vs = concat ws -> hash_slice st vs = hash_slice st ws.
   Proof. unfold hash_slice. intros ->. reflexivity. Qed.
 End Hashing.
+
+(* ---- `[u8] == [u8]` as core computes it: lengths, then element by element.  The derived `eq` is this
+   comparison applied to the two byte views. *)
+Fixpoint slice_eq (a b : bytes) : bool :=
+  match a, b with
+  | [], [] => true
+  | x :: a', y :: b' => N.eqb x y && slice_eq a' b'
+  | _, _ => false
+  end.
+
+Lemma slice_eq_spec a : forall b, slice_eq a b = true <-> a = b.
+Proof.
+  induction a as [|x a IH]; intros [|y b]; cbn [slice_eq]; try (split; intros H; congruence).
+  rewrite andb_true_iff, N.eqb_eq, IH. split; [intros [-> ->]; reflexivity | intros H; inversion H; auto].
+Qed.
+
+Lemma slice_eq_byte_eq a b : slice_eq a b = byte_eq a b.
+Proof.
+  destruct (byte_eq a b) eqn:E.
+  - apply slice_eq_spec, byte_eq_spec, E.
+  - destruct (slice_eq a b) eqn:F; [|reflexivity].
+    apply slice_eq_spec in F. apply byte_eq_spec in F. congruence.
+Qed.
+
+Lemma slice_eq_length a b : slice_eq a b = true -> length a = length b.
+Proof. intros H. apply slice_eq_spec in H. subst. reflexivity. Qed.
+
+(* ---- A value of a deriving struct is its fields' byte strings (NoUninit: no padding), so
+   bytes_of is their concatenation.  Field-wise IEEE comparison of an f32 field, for contrast. *)
+Definition value := list bytes.
+Definition bytes_of (v : value) : bytes := concat v.
+Definition derived_eq (v w : value) : bool := slice_eq (bytes_of v) (bytes_of w).
+
+Definition le_bits (bs : bytes) : N := fold_right (fun b acc => b + 256 * acc)%N 0%N bs.
+Definition f32_is_nan (bits : N) : bool :=
+  (N.eqb ((bits / 8388608) mod 256) 255 && negb (N.eqb (bits mod 8388608) 0))%N.
+Definition f32_is_zero (bits : N) : bool := N.eqb (bits mod 2147483648) 0.
+Definition f32_ieee_eq (a b : bytes) : bool :=
+  let x := le_bits a in let y := le_bits b in
+  if f32_is_nan x || f32_is_nan y then false
+  else if f32_is_zero x && f32_is_zero y then true else N.eqb x y.
+Fixpoint fieldwise_f32_eq (v w : value) : bool :=
+  match v, w with
+  | [], [] => true
+  | a :: v', b :: w' => f32_ieee_eq a b && fieldwise_f32_eq v' w'
+  | _, _ => false
+  end.
+
+Lemma derived_eq_iff v w : derived_eq v w = true <-> bytes_of v = bytes_of w.
+Proof. apply slice_eq_spec. Qed.
+Lemma derived_eq_refl v : derived_eq v v = true.
+Proof. apply derived_eq_iff. reflexivity. Qed.
+Lemma derived_eq_sym v w : derived_eq v w = derived_eq w v.
+Proof. unfold derived_eq. rewrite !slice_eq_byte_eq. apply byte_eq_sym. Qed.
+Lemma derived_eq_trans u v w : derived_eq u v = true -> derived_eq v w = true -> derived_eq u w = true.
+Proof. rewrite !derived_eq_iff. congruence. Qed.
+
+(* a quiet NaN (0x7FC00001) is unequal to itself field-wise, equal byte-wise; +0.0 / -0.0 the other way *)
+Definition nan_payload1 : value := [[1; 0; 192; 127]%N].
+Definition pos_zero : value := [[0; 0; 0; 0]%N].
+Definition neg_zero : value := [[0; 0; 0; 128]%N].
+Lemma nan_contrast : fieldwise_f32_eq nan_payload1 nan_payload1 = false /\ derived_eq nan_payload1 nan_payload1 = true.
+Proof. split; vm_compute; reflexivity. Qed.
+Lemma zero_contrast : fieldwise_f32_eq pos_zero neg_zero = true /\ derived_eq pos_zero neg_zero = false.
+Proof. split; vm_compute; reflexivity. Qed.
+
+Section HashingLaws.
+  Variable state : Type.
+  Variable write : state -> bytes -> state.
+
+  (* the value form and the slice form agree on a one-element slice *)
+  Theorem hash_singleton st a : hash state write st a = hash_slice state write st [a].
+  Proof. unfold hash, hash_slice. cbn [concat]. rewrite app_nil_r. reflexivity. Qed.
+
+  Theorem hash_slice_app st vs ws :
+    hash_slice state write st (vs ++ ws) = write st (concat vs ++ concat ws).
+  Proof. unfold hash_slice. rewrite concat_app. reflexivity. Qed.
+
+  (* under a hasher that loses nothing, equal hashes mean equal bytes: the hash sees ALL the bytes *)
+  Theorem hash_injective_hasher st a b :
+    (forall s x y, write s x = write s y -> x = y) ->
+    hash state write st a = hash state write st b -> byte_eq a b = true.
+  Proof. intros Hinj H. apply byte_eq_spec. exact (Hinj st a b H). Qed.
+End HashingLaws.
+
+(* the recording hasher of the correspondence run: exactly ONE write call, of exactly the bytes *)
+Definition rec_write (st : list bytes) (b : bytes) : list bytes := st ++ [b].
+Theorem recording_one_write v : hash (list bytes) rec_write [] v = [v].
+Proof. reflexivity. Qed.
+Theorem recording_one_write_slice vs : hash_slice (list bytes) rec_write [] vs = [concat vs].
+Proof. reflexivity. Qed.
